@@ -22,6 +22,9 @@ Lock-set part
                        and the trace conforms to the sites, there is no race on `x`.
 * `guarded_gives_common` : the executable table check `guarded` really yields a lock that is
                        in every (non-setup) site's lock set.
+* `lockset_sound_pairwise`, `pairGuarded_gives_shared` : the same for state guarded by TWO
+                       mutexes (written under both, read under either): every two sites of which
+                       one can write share a lock ⇒ no race.
 The regenerated table itself is discharged in `lean/Bridge/C09.lean` (`anchored_fields_guarded`).
 
 Pool part (model `Req/Pool/H1Pool.lean`; an op list is one interleaving at lock granularity)
@@ -94,6 +97,38 @@ theorem static_lockset_sound (facts : StaticFacts) (tr : List Ev) (hwf : WF tr)
   obtain ⟨s, hs, hh⟩ := hc i t x w hi
   exact hh l (hall s hs)
 
+/-- **lockset_sound_pairwise** — the two-mutex discipline ("written under `mu` AND `wmu`, read under
+either"): if every two access sites of `x` of which at least one can write have a lock in common
+(not necessarily the same lock for every pair), no execution that conforms to the sites contains
+a race on `x`. The classical theorem is the special case of one lock common to all sites. -/
+theorem lockset_sound_pairwise (facts : StaticFactsW) (tr : List Ev) (hwf : WF tr)
+    (hc : ConformsW facts tr) (x : Loc)
+    (hall : ∀ a ∈ facts x, ∀ b ∈ facts x, (a.1 = true ∨ b.1 = true) → ∃ l, l ∈ a.2 ∧ l ∈ b.2) :
+    ¬ Race tr x := by
+  rintro ⟨i, j, t₁, t₂, w₁, w₂, hij, hi, hj, hne, hw, hnhb⟩
+  obtain ⟨a, ha, haw, hah⟩ := hc i t₁ x w₁ hi
+  obtain ⟨b, hb, hbw, hbh⟩ := hc j t₂ x w₂ hj
+  obtain ⟨l, hla, hlb⟩ := hall a ha b hb (by
+    rcases hw with h | h
+    · exact Or.inl (haw h)
+    · exact Or.inr (hbw h))
+  exact hnhb (lockset_ordered tr hwf l i j t₁ t₂ x x w₁ w₂ hij hne hi hj (hah l hla) (hbh l hlb))
+
+/-- **pairGuarded_gives_shared** — the executable pairwise check is sound. -/
+theorem pairGuarded_gives_shared (as : List Access) (hg : pairGuarded as = true)
+    (a b : Access) (ha : a ∈ live as) (hb : b ∈ live as) (hw : a.write = true ∨ b.write = true) :
+    ∃ l, l ∈ a.held ∧ l ∈ b.held := by
+  unfold pairGuarded at hg
+  have h1 := List.all_eq_true.mp (List.all_eq_true.mp hg a ha) b hb
+  unfold pairOK at h1
+  simp only [Bool.or_eq_true, Bool.and_eq_true, Bool.not_eq_true', List.any_eq_true,
+    List.contains_iff_mem] at h1
+  rcases h1 with ⟨h2, h3⟩ | ⟨l, hl, hl'⟩
+  · rcases hw with h | h
+    · rw [h] at h2; cases h2
+    · rw [h] at h3; cases h3
+  · exact ⟨l, hl, by simpa using hl'⟩
+
 /-- **guarded_gives_common** — the executable check is sound: when `guarded as` holds and some
 non-setup site exists, there is a lock contained in the lock set of every non-setup site. -/
 theorem guarded_gives_common (as : List Access) (hg : guarded as = true) (hne : live as ≠ []) :
@@ -139,6 +174,12 @@ example : guarded [⟨[1], true, false, [5]⟩, ⟨[2], false, false, [4, 5]⟩]
 example : guarded [⟨[1], true, false, [5]⟩, ⟨[2], false, false, []⟩] = false := by decide
 example : verdict [⟨[1], true, false, [5]⟩, ⟨[1], true, false, [5]⟩, ⟨[2], false, false, []⟩]
     = .unguarded 5 [[2]] := by decide
+/-- written under locks 4 and 5, read under 4 by one reader and under 5 by another: no common
+lock, pairwise guarded; a reader that holds neither breaks it. -/
+example : verdict [⟨[1], true, false, [4, 5]⟩, ⟨[2], false, false, [4]⟩, ⟨[3], false, false, [5]⟩]
+    = .pairwise := by decide
+example : pairGuarded [⟨[1], true, false, [4, 5]⟩, ⟨[2], false, false, [4]⟩, ⟨[3], false, false, []⟩]
+    = false := by decide
 
 
 /-! ## Pool -/
